@@ -258,7 +258,9 @@ def check(src, acc_name, pre_passes, set_layout, what):
         ub, ts, ss = st["ub"], st["ts"], st["ss"]
         sp = st["spatial_dims"] or []
         steps = int(np.prod(ub)) if ub else 1
-        E.oblige("stream:number_of_temporal_steps", z3.BoolVal(steps == total_T), dict(stream=k, operand=o, ub=ub, temporal_bounds=BT, what=what))
+        nz = [s for s in strides[nT:] if s != 0]
+        inner_contig = (not nz) or nz[-1] == el  # the innermost scheduled (spatial) dimension is the one contiguous in memory
+        E.oblige("stream:number_of_temporal_steps", z3.BoolVal(steps == total_T), dict(stream=k, operand=o, ub=ub, temporal_bounds=BT, what=what, inner_contiguous=inner_contig))
         if steps != total_T:
             continue
         base1 = z3.IntVal(0)
@@ -275,8 +277,8 @@ def check(src, acc_name, pre_passes, set_layout, what):
             S1.update(range(a, a + 8))
         m1, m2 = min(S1), min(S2)
         E.oblige("stream:bytes_per_step_shape", z3.BoolVal({v - m1 for v in S1} == {v - m2 for v in S2}),
-                 dict(stream=k, operand=o, ss=ss, spatial_dims=sp, streamer_bytes=len(S1), schedule_bytes=len(S2), what=what))
-        E.oblige("stream:base_address_of_every_step", base1 + m1 == base2 + m2, dict(stream=k, operand=o, ub=ub, ts=ts, strides=strides[:nT], what=what))
+                 dict(stream=k, operand=o, ss=ss, spatial_dims=sp, streamer_bytes=len(S1), schedule_bytes=len(S2), what=what, inner_contiguous=inner_contig))
+        E.oblige("stream:base_address_of_every_step", base1 + m1 == base2 + m2, dict(stream=k, operand=o, ub=ub, ts=ts, strides=strides[:nT], what=what, inner_contiguous=inner_contig))
         # (iii) the programmed registers realise this stride pattern (a dimension may only be collapsed to bound 1
         # when its stride is 0: the word is then re-used inside the streamer)
         pg = st.get("programmed") or {}
@@ -324,6 +326,8 @@ def case_pipeline(case):
         s = f["name"]
         if s.startswith("layout_resolution") and lay.get("offset"):
             s += f"|layout_with_nonzero_offset:{lay.get('kind')}"
+        if s.startswith("stream:") and info.get("inner_contiguous") is False:
+            s += "|innermost_scheduled_dimension_not_the_contiguous_one"
         return s
 
     return run_case(fn, replay, signature=sig, sample=dict(case=str(case)[:300]), key=str(case), timeout_ms=20000)
